@@ -739,6 +739,25 @@ def _():
     return _noargs, call
 
 
+@op("k_subgrid_slope", classes=R, group="kernel", variants=2)
+def _():
+    def call(W, a):
+        # the slope kernels behind subgrid_rivslp with the kind of distance field large basins have: float32
+        # metres, hundreds of km from the outlet (the public method cannot be compiled at all with affine 3, F07)
+        from pyflwdir import subgrid
+        f = W.flw
+        up = W.uparea_distinct()
+        outs = np.asarray(f.ucat_outlets(a["s"], uparea=up)).ravel()
+        dist = (np.asarray(f.stream_distance(unit="cell"), dtype=np.float64).ravel() * a["cell"] + a["offset"]).astype(np.float32)
+        elv = W.arr("elevf", np.float32).ravel()
+        nxt = f.idxs_ds if a["direction"] == "down" else f.idxs_us_main
+        s1 = subgrid.segment_slope(outs, nxt, elv, dist, None, -9999.0, a["lstsq"], f._mv)
+        s2 = subgrid.fixed_length_slope(outs, f.idxs_ds, f.idxs_us_main, elv, dist, a["cell"] * a["length"], None, a["lstsq"], f._mv)
+        return s1, s2
+    return (lambda rng, w: {"s": rng.choice([2, 3]), "cell": rng.choice([1.0, 30.0, 92.5, 1000.0]), "offset": rng.choice([0.0, 0.0, 1.5e3, 2.5e5, 1.2e6]),
+                            "direction": rng.choice(["up", "down"]), "lstsq": rng.random() < 0.7, "length": rng.choice([2, 4, 100])}, call)
+
+
 # ---- rivers.py wrappers ---------------------------------------------------------------------------
 @op("classify_estuaries", group="rivers")
 def _():
